@@ -27,6 +27,8 @@ HYDRO_POOLS = [
     # component names with further letters 'x' after (or before) the component letter
     ["density", "mix_x_ext", "mix_y_ext", "mix_z_ext", "velocity_x_max", "velocity_y_max", "velocity_z_max", "pressure"],
     ["density", "flux_x_axial", "flux_y_axial", "flux_z_axial", "extra_x", "extra_y", "extra_z", "xenon_x_mix", "xenon_y_mix", "xenon_z_mix"],
+    # names that are proper prefixes of other names (unpadded numbering)
+    ["density", "scalar_1", "scalar_10", "scalar_11", "radiative_energy_1", "radiative_energy_10", "thermal_pressure", "thermal_pressure_old"],
 ]
 RT_POOLS = [["photon_density_1", "photon_flux_1_x", "photon_flux_1_y", "photon_flux_1_z"], ["photon_density_1", "photon_density_2"],
             ["rt_a", "rt_b", "rt_c"]]
@@ -116,7 +118,9 @@ def gen_part(rng, ndim, ncpu):
 SINK_COLS_CODE = [("id", "1"), ("msink", "m"), ("x", "l"), ("y", "l"), ("z", "l"), ("vx", "l t**-1"), ("vy", "l t**-1"), ("vz", "l t**-1"),
                   ("rot_period", "t"), ("lx", "m l**2 t**-1"), ("acc_rate", "m t**-1"), ("rho", "m l**-3"), ("level", "1")]
 SINK_COLS_LEGACY = [("id", "[1]"), ("msink", "[M_sun]"), ("x", "[cm]"), ("y", "[cm]"), ("z", "[cm]"), ("vx", "[cm/s]"), ("vy", "[cm/s]"),
-                    ("vz", "[cm/s]"), ("age", "[yr]"), ("temp", "[K]")]
+                    ("vz", "[cm/s]"), ("age", "[yr]"), ("temp", "[K]"),
+                    # physical units spelled with the letters that mean code mass / length / time in the other dialect
+                    ("rsink", "[m]"), ("mgas", "[t]"), ("vol", "[l]"), ("area", "[m**2]"), ("jsink", "[m**2 s**-1]")]
 
 
 def gen_sink(rng, ndim):
